@@ -81,6 +81,7 @@ impl Client {
         let session = self.create_stream().await?;
         tracing::debug!("[Client] Got session for proxy stream");
 
+        vp!("create_proxy_stream.after_get_session");
         // Open a new stream in the session
         let (stream, synack_rx) = session.open_stream().await?;
         tracing::debug!(
@@ -140,9 +141,11 @@ impl Client {
         // Disable buffering before writing first data frame
         // This is critical: in Go version, buffering is disabled when proxy writes SocksAddr
         // This ensures buffered Settings frame is flushed along with the first data
+        vp!("create_proxy_stream.before_disable_buffering");
         session.disable_buffering();
         tracing::debug!("[Client] Buffering disabled, buffer will be flushed");
 
+        vp!("create_proxy_stream.before_dest_write");
         session
             .write_data_frame(stream_id, Bytes::from(addr_bytes))
             .await?;
@@ -311,6 +314,7 @@ impl Client {
         session.clone().start_client().await?;
         tracing::debug!("[Client] Client session started successfully");
 
+        vp!("create_new_session.before_add_idle");
         // Store in pool
         self.session_pool.add_idle_session(session.clone()).await;
         tracing::debug!("[Client] Session added to pool");
